@@ -555,7 +555,15 @@ class TagAttrDict(Dict[str, "str | HTML"]):
                 nm = self._normalize_attr_name(k)
 
                 if nm in attrz:
-                    val = attrz[nm] + " " + val
+                    prev = attrz[nm]
+                    # A plain string joined with an HTML() value becomes part of an
+                    # HTML() value, which is written verbatim: escape it for an
+                    # attribute context now (HTML.__add__/__radd__ only text-escape).
+                    if isinstance(val, HTML) and not isinstance(prev, HTML):
+                        prev = HTML(html_escape(prev, attr=True))
+                    elif isinstance(prev, HTML) and not isinstance(val, HTML):
+                        val = HTML(html_escape(val, attr=True))
+                    val = prev + " " + val
 
                 attrz[nm] = val
 
